@@ -23,6 +23,11 @@ def cases(tier, seed):
         if spec[0] == "identity":
             continue
         groups.setdefault((spec[0], spec[2].get("order", spec[2].get("bits_per_symbol"))), []).append(spec)
+    # the largest orders the classes accept without the Gray utilities' open finding at 1023: PAM 128 / 256 / 512, PSK 128 / 256
+    for scheme, order, opts in (("pam", 128, [{"gray_coding": g, "normalize": nz} for g in (True, False) for nz in (True, False)]), ("pam", 256, [{"gray_coding": g, "normalize": True} for g in (True, False)]),
+                                ("pam", 512, [{"gray_coding": g, "normalize": nz} for g in (True, False) for nz in (True, False)]),
+                                ("psk", 128, [{"gray_coding": g} for g in (True, False)]), ("psk", 256, [{"gray_coding": g} for g in (True, False)])):
+        groups[(scheme, order)] = [(scheme, f"M={order},gray={int(o['gray_coding'])}" + (f",norm={int(o['normalize'])}" if "normalize" in o else ""), dict(o, order=order)) for o in opts]
     for (scheme, order), specs in groups.items():
         yield f"C14|{scheme}|order={order}", {"kind": "schemes", "specs": specs}
     top = 16 if tier == "quick" else 20
